@@ -461,6 +461,27 @@ func checkSrcsim(prop, tier string) int {
 	}
 	evLog.Close()
 
+	// C07 I4: the stock CLI on a sample of the same trees
+	cliRuns := 0
+	cliStats := map[string]int{}
+	if prop == "C07" {
+		n := 240
+		if tier == "thorough" {
+			n = 4000
+		}
+		var cv []cliViol
+		cv, cliRuns, cliStats = c07CLI(plan.jobs, results, n)
+		for _, v := range cv {
+			key := "C07.I4\x00" + v.sig
+			g := groups[key]
+			if g == nil {
+				g = &violGroup{Inv: "C07.I4", Sig: v.sig, Detail: v.detail}
+				groups[key] = g
+			}
+			g.Runs = append(g.Runs, v.job)
+		}
+	}
+
 	known := loadKnown()
 	keys := make([]string, 0, len(groups))
 	for k := range groups {
@@ -478,7 +499,16 @@ func checkSrcsim(prop, tier string) int {
 		}
 		newViol++
 		run := g.Runs[0]
-		rp := minimiseSrc(pool, prop, &plan.jobs[run], g, plan.meta[run].Class)
+		var rp *replayFile
+		if g.Inv == "C07.I4" {
+			ex, _ := explicitJob(&plan.jobs[run])
+			rp = &replayFile{Property: prop, Engine: "srcsim-cli", Seed: seed, Inv: g.Inv, Sig: g.Sig, Detail: g.Detail, Class: plan.meta[run].Class, Faults: plan.jobs[run].Faults}
+			if ex != nil {
+				rp.Job = *ex
+			}
+		} else {
+			rp = minimiseSrc(pool, prop, &plan.jobs[run], g, plan.meta[run].Class)
+		}
 		rp.Run = run
 		name := fmt.Sprintf("%s-%s-seed%d-run%d-%s.json", prop, sanitize(g.Inv), seed, run, shortHash(g.Sig))
 		path := filepath.Join(verifDir, "replays", name)
@@ -524,6 +554,8 @@ func checkSrcsim(prop, tier string) int {
 		"components_real":           []string{"src/scanner", "src/parser", "src/parser/resolver", "src/parser/typechecker", "src/ast/annotators", "src/ddperror (renderer)", "os.ReadFile / filepath.WalkDir on a real tmpfs tree"},
 		"components_simulated":      []string{"the content and shape of the source tree (every byte written by the simulator)"},
 		"single_fault_enumeration":  tier == "thorough",
+		"kddp_cli_runs":             cliRuns,
+		"kddp_cli_outcomes":         cliStats,
 	}
 	ev.Assumptions = []string{
 		"the space explored is the fault closure (<=3 faults) of the repository's 157 DDP files plus generated module sets, not all byte strings",
